@@ -606,7 +606,7 @@ func ruleLockset(c *Check, p *Prog, roots []workerRoot, reach map[*ssa.Function]
 				if al, isAl := fa.X.(*ssa.Alloc); isAl && al.Heap {
 					continue // construction
 				}
-				name := derefStruct(fa.X.Type()).Field(fa.Field).Name()
+				name := fieldLabel(fa.X.Type(), fa.Field)
 				w := false
 				for _, r := range *fa.Referrers() {
 					switch x := r.(type) {
@@ -649,7 +649,8 @@ func ruleLockset(c *Check, p *Prog, roots []workerRoot, reach map[*ssa.Function]
 	nShared := 0
 	for i := 0; i < mgr.NumFields(); i++ {
 		f := mgr.Field(i)
-		as := acc[f.Name()]
+		label := fieldLabel(p.TypesPkg(rootPath+"/block").Scope().Lookup("Manager").Type(), i)
+		as := acc[label]
 		var writers []access
 		rootSet := map[string]bool{}
 		for _, a := range as {
@@ -667,7 +668,7 @@ func ruleLockset(c *Check, p *Prog, roots []workerRoot, reach map[*ssa.Function]
 			continue // immutable after construction
 		}
 		nShared++
-		inst := "Manager." + f.Name()
+		inst := "Manager." + label
 		pos := p.InstrPos(writers[0].in)
 		if selfSync(f.Type()) {
 			c.OK("C13-R1", inst, "", pos, "self-synchronising type "+f.Type().String(), false)
